@@ -16,7 +16,7 @@ import subprocess
 import sys
 import tempfile
 
-OPS = ["M", "A", "B", "E", "N", "J", "P"]
+OPS = ["M", "A", "B", "E", "N", "J", "P", "I", "S"]
 OP_DOC = {
     "M": "create unrelated Mesh / FunctionSpace / Coefficient / Constant / Index objects",
     "A": "generate C code for an unrelated form (float64)",
@@ -25,8 +25,20 @@ OP_DOC = {
     "N": "generate code with the numba backend",
     "J": "run a complete JIT request (cffi build) for an unrelated form",
     "P": "change numpy print options",
+    "I": "generate code for a form on a macro (P1-iso-P2) element of the same cell/degree as a target",
+    "S": "generate code for a simplex form with the process-wide options dict that has sum_factorization=True (as ffcx.main does for several files)",
 }
-TARGETS = ["mass-P1-tri", "nonaffine-quad", "mixed-TH", "interior-facet", "expression", "vector-const-tet", "two-rules-coeff", "prism-ds"]
+TARGETS = ["mass-P1-tri", "nonaffine-quad", "mixed-TH", "interior-facet", "expression", "vector-const-tet", "two-rules-coeff", "prism-ds", "iso-mass-tri", "sumfact-hex"]
+_SHARED = {}
+
+
+def shared_options():
+    """One options dict per process, reused by every compilation that asks for it (like ffcx.main over several files)."""
+    import ffcx.options
+
+    if "opts" not in _SHARED:
+        _SHARED["opts"] = ffcx.options.get_options({"sum_factorization": True})
+    return _SHARED["opts"]
 
 
 # ---------------------------------------------------------------------------------------------------
@@ -71,6 +83,14 @@ def do_op(op, k, scratch):
         jit.compile_forms([c * u * v * ufl.dx], cache_dir=os.path.join(scratch, f"jit{k}"))
     elif op == "P":
         np.set_printoptions(precision=3, threshold=5, linewidth=40)
+    elif op == "I":
+        import basix.ufl
+
+        mi = ufl.Mesh(basix.ufl.element("P", "triangle", 1, shape=(2,)))
+        Vi = ufl.FunctionSpace(mi, basix.ufl.element("iso", "triangle", 1))
+        ffcx.compiler.compile_ufl_objects([ufl.TrialFunction(Vi) * ufl.TestFunction(Vi) * ufl.dx], options=ffcx.options.get_options({}), namespace="hI")
+    elif op == "S":
+        ffcx.compiler.compile_ufl_objects([f * u * v * ufl.dx], options=shared_options(), namespace="hS")
     else:
         raise KeyError(op)
 
@@ -121,6 +141,17 @@ def build_target(name):
         f, g = ufl.Coefficient(V), ufl.Coefficient(V)
         v = ufl.TestFunction(V)
         return ufl.exp(f) * v * ufl.dx(degree=2) + ufl.conditional(ufl.lt(f, g), f, g) * v * ufl.dx(degree=4) + g * v * ufl.dx(1)
+    if name == "iso-mass-tri":
+        m = ufl.Mesh(el("P", "triangle", 1, shape=(2,)))
+        V = ufl.FunctionSpace(m, el("iso", "triangle", 1))
+        return ufl.TrialFunction(V) * ufl.TestFunction(V) * ufl.dx
+    if name == "sumfact-hex":
+        from . import forms as _f
+
+        m = ufl.Mesh(_f.tp_element("hexahedron", 1, shape=(3,)))
+        V = ufl.FunctionSpace(m, _f.tp_element("hexahedron", 2))
+        u, v = ufl.TrialFunction(V), ufl.TestFunction(V)
+        return ufl.inner(ufl.grad(u), ufl.grad(v)) * ufl.dx
     if name == "prism-ds":
         m = ufl.Mesh(el("P", "prism", 1, shape=(3,)))
         V = ufl.FunctionSpace(m, el("P", "prism", 1))
@@ -142,7 +173,8 @@ def child_main(job):
     order = job["targets"]
     for name in order:
         obj = build_target(name)
-        code, _ = ffcx.compiler.compile_ufl_objects([obj], options=ffcx.options.get_options(job.get("options") or {}), namespace="tgt")
+        opts = shared_options() if name == "sumfact-hex" else ffcx.options.get_options(job.get("options") or {})
+        code, _ = ffcx.compiler.compile_ufl_objects([obj], options=opts, namespace="tgt")
         text = "\n".join(code)
         rec = {"sha": hashlib.sha1(text.encode()).hexdigest(), "len": len(text)}
         if job.get("keep_text"):
@@ -150,7 +182,7 @@ def child_main(job):
         if job.get("names"):
             import ffcx.codegeneration.jit as jit
 
-            p = ffcx.options.get_options(job.get("options") or {})
+            p = opts
             tag = jit._compute_option_signature(p) + jit._compilation_signature([], False)
             sig = ffcx.naming.compute_signature([obj], tag)
             rec["module"] = ("libffcx_expressions_" if isinstance(obj, tuple) else "libffcx_forms_") + sig
